@@ -24,6 +24,9 @@ case "$CFG" in
 esac
 TD=$V/.work/target-$CFG
 mkdir -p "$TD" "$(dirname "$OUT")"
+# one extraction per target directory at a time (checks may be started in parallel)
+exec 9>"$TD/.extract.lock"
+flock 9
 # force the crate itself to be recompiled through the wrapper (deps stay cached)
 rm -rf "$TD"/debug/.fingerprint/meshless_voronoi-* 2>/dev/null
 rm -f "$OUT"
@@ -33,8 +36,10 @@ RUSTFLAGS="-Zmir-opt-level=0 -Awarnings $EXTRA" \
 RUSTC_WORKSPACE_WRAPPER=$DRV \
 MV_FACTS_OUT="$OUT" MV_FACTS_CONFIG="$CFG" \
 CARGO_INCREMENTAL=0 CARGO_NET_OFFLINE=true CARGO_TARGET_DIR="$TD" \
-cargo +nightly check --offline --lib $FEATS >"$TD/extract.log" 2>&1
+cargo +nightly check --offline --lib $FEATS >"$TD/extract.log.$$" 2>&1
 RC=$?
+mv -f "$TD/extract.log.$$" "$TD/extract.log"
+flock -u 9
 if [ $RC -ne 0 ] || [ ! -s "$OUT" ]; then
   echo "extract($CFG) failed rc=$RC; log: $TD/extract.log"; tail -20 "$TD/extract.log"; exit 3
 fi
